@@ -7,7 +7,7 @@ use crate::report::{Cfg, Rep, Scale, Tier};
 use crate::{shard_of, Case};
 
 fn usage() -> ! {
-    eprintln!("usage: worker <PROP> --tier quick|thorough --lane L --scale tiny|mid|full --seed S --shard k/N [--only I] [--from I] [--trace] [--list]");
+    eprintln!("usage: worker <PROP> --tier quick|thorough --lane L --scale tiny|mid|full --seed S --shard k/N [--only I] [--from I] [--reps R] [--trace] [--list]");
     std::process::exit(64);
 }
 
@@ -29,6 +29,7 @@ pub fn run(cases_fn: impl Fn(&Cfg) -> Vec<Case>) {
         trace: false,
         list: false,
     };
+    let mut reps: u64 = 1;
     let mut i = 2;
     while i < args.len() {
         let a = args[i].as_str();
@@ -74,6 +75,10 @@ pub fn run(cases_fn: impl Fn(&Cfg) -> Vec<Case>) {
                 cfg.from = val(i).parse().unwrap_or_else(|_| usage());
                 i += 1;
             }
+            "--reps" => {
+                reps = val(i).parse().unwrap_or_else(|_| usage());
+                i += 1;
+            }
             "--trace" => cfg.trace = true,
             "--list" => cfg.list = true,
             _ => usage(),
@@ -83,7 +88,15 @@ pub fn run(cases_fn: impl Fn(&Cfg) -> Vec<Case>) {
 
     crate::outcome::install_hook();
     crate::set_tiny(cfg.scale == Scale::Tiny);
-    let cases = cases_fn(&cfg);
+    // --reps R: the whole catalogue is generated R times with R derived seeds (the mandatory boundary
+    // cases repeat, everything seeded — inputs, tie orders, query plans, histories — is new)
+    let mut cases = cases_fn(&cfg);
+    for r in 1..reps {
+        let mut c2 = cfg.clone();
+        let mut x = cfg.seed ^ r.wrapping_mul(0xA076_1D64_78BD_642F);
+        c2.seed = crate::prng::splitmix(&mut x);
+        cases.extend(cases_fn(&c2));
+    }
     let assign = shard_of(&cases, cfg.nshards.max(1));
     let mut rep = Rep::new(cfg.clone());
     if cfg.list {
